@@ -98,6 +98,7 @@ func build(p *program, minPages, maxPages uint32, consts *[2]uint32, kind string
 type bopt struct {
 	narrow [2]bool
 	impMem bool
+	shared bool // the memory is declared shared (threads): its buffer is allocated for the maximum at once
 	wrap   bool // both addresses pass through i64 (upper half set to a marker) and i32.wrap_i64 inside the function
 }
 
@@ -124,6 +125,7 @@ func buildOpt(p *program, minPages, maxPages uint32, consts *[2]uint32, kind str
 		m.ImportMemory("owner", "mem", minPages, &maxPages)
 	} else {
 		m.Memory(minPages, &maxPages, "mem")
+		m.M.MemorySection.IsShared = o.shared
 	}
 	nop := m.AddFunc(wb.Func{Export: "nopf"})
 	grower := m.AddFunc(wb.Func{Body: wb.Cat(wb.I32Const(int32(p.Scale)), wasm.OpcodeMemoryGrow, 0, wasm.OpcodeDrop), Export: "grow1"})
@@ -209,6 +211,13 @@ func buildOpt(p *program, minPages, maxPages uint32, consts *[2]uint32, kind str
 			b = append(b, wb.Cat(wb.I32Const(int32(p.Scale)), wasm.OpcodeMemoryGrow, 0, wasm.OpcodeDrop)...)
 		case "growneg":
 			b = append(b, wb.Cat(wb.I32Const(-1), wasm.OpcodeMemoryGrow, 0, wasm.OpcodeDrop)...)
+		case "touch":
+			// zero bytes copied / filled at address 0: alternately memory.copy and memory.fill
+			if at%2 == 1 {
+				b = append(b, wb.Cat(wb.I32Const(0), wb.I32Const(0), wb.I32Const(0), wasm.OpcodeMiscPrefix, wasm.OpcodeMiscMemoryCopy, 0, 0)...)
+			} else {
+				b = append(b, wb.Cat(wb.I32Const(0), wb.I32Const(0), wb.I32Const(0), wasm.OpcodeMiscPrefix, wasm.OpcodeMiscMemoryFill, 0)...)
+			}
 		case "mix":
 			b = append(b, wb.Cat(wb.LocalGet(locP0), wb.LocalSet(locTmp), wb.LocalGet(locP1), wb.LocalSet(locP0), wb.LocalGet(locTmp), wb.LocalSet(locP1))...)
 		case "if":
@@ -492,7 +501,7 @@ func runProgram(id int, raw json.RawMessage) common.Result {
 		if engine == "compiler" {
 			cfg = wazero.NewRuntimeConfigCompiler()
 		}
-		rt := wazero.NewRuntimeWithConfig(ctx, cfg)
+		rt := wazero.NewRuntimeWithConfig(ctx, cfg.WithCoreFeatures(api.CoreFeaturesV2|experimental.CoreFeaturesThreads))
 		scale := uint32(p.Scale)
 		if _, err := rt.NewHostModuleBuilder("env").
 			NewFunctionBuilder().WithGoModuleFunction(api.GoModuleFunc(func(context.Context, api.Module, []uint64) {}), nil, nil).Export("host_nop").
@@ -562,14 +571,17 @@ func runProgram(id int, raw json.RawMessage) common.Result {
 			// load inside the function, and the memory imported from its owner; under the guard allocator
 			a0, a1 := uint32(abs(&p, r.Inp.V0u, r.Inp.V0d)), uint32(abs(&p, r.Inp.V1u, r.Inp.V1d))
 			mask := [2]bool{narrowable(a0), narrowable(a1)}
-			if r.Inp.S >= 1 && (p.Scale > 1 || i%3 == id%3) {
+			if p.Scale > 1 || i%3 == id%3 || r.Inp.S == 0 {
 				for _, v := range []struct {
 					name string
 					o    bopt
 				}{{"narrow", bopt{narrow: mask}}, {"param-impmem", bopt{impMem: true}}, {"narrow-impmem", bopt{narrow: mask, impMem: true}},
-					{"wrap", bopt{wrap: true}}, {"wrap-impmem", bopt{wrap: true, impMem: true}}} {
-					if strings.HasPrefix(v.name, "narrow") && !mask[0] && !mask[1] {
+					{"wrap", bopt{wrap: true}}, {"wrap-impmem", bopt{wrap: true, impMem: true}}, {"param-shared", bopt{shared: true}}} {
+					if strings.HasPrefix(v.name, "narrow") && (r.Inp.S < 1 || !mask[0] && !mask[1]) {
 						continue
+					}
+					if v.o.shared && p.Scale > 1 {
+						continue // a shared memory is allocated for its maximum at once: page scale only
 					}
 					if v.name == "narrow" && r.Inp.S*p.Scale >= 65536 {
 						continue // an own memory of 65536 pages: every access of the compiler traps (listed finding), the prologue's too
@@ -586,6 +598,9 @@ func runProgram(id int, raw json.RawMessage) common.Result {
 						kcms[k] = vcm
 					}
 					execute(&res, &p, r, rt, vcm, engine, "guard", v.name)
+					if v.o.shared { // the default allocator as well: what the base of an EMPTY buffer is differs between allocators
+						execute(&res, &p, r, rt, vcm, engine, "default", v.name)
+					}
 				}
 			}
 			if p.Const && (i%5 == id%5 || r.Inp.V0u*p.Scale >= 32768) {
